@@ -42,6 +42,8 @@ def spec(name, *args):
 def spec_line(sp):
     """The request line the command API writes for a spec whose arguments need no quoting."""
     parts = sp.split(".")
+    if parts[0] == "big":
+        return "echo " + "x" * int(unhexs(parts[1]).decode())
     return " ".join([parts[0]] + [unhexs(a).decode() for a in parts[1:]])
 
 
@@ -218,6 +220,8 @@ def expected_result(kind, specs):
         parts = sp.split(".")
         name = parts[0]
         args = [unhexs(a).decode() for a in parts[1:]]
+        if name == "big":
+            name, args = "echo", ["x" * int(args[0])]
         line = " ".join([name] + args)
         if name in ("fail", "pfail"):
             # pfail: the command had already written part of its output when it failed; that partial frame is not a frame of a
